@@ -606,6 +606,24 @@ impl Property for C19 {
                 );
             }
         }
+        // the stabiliser-state builder is generic over the graph backend: the same seed must give
+        // the same diagram in the vector and in the hash backend
+        if let Gen::StabState { qubits, hash_backend } = &sc.gen {
+            let other = Gen::StabState { qubits: *qubits, hash_backend: !*hash_backend };
+            if let Ok(o) = std::panic::catch_unwind(move || build(&other, seed, sp, bt)) {
+                out.probe("other_backend_compared");
+                if o != a {
+                    out.violations.push(
+                        Violation::new(
+                            "not_reproducible",
+                            format!("{:?} seed {}: the vector and the hash backend give different diagrams for the same seed", sc.gen, sc.seed),
+                        )
+                        .with("generator", name)
+                        .with("where", "other_backend"),
+                    );
+                }
+            }
+        }
         // promises, on every object of the batch
         for o in &a {
             self.judge(sc, o, &mut out);
